@@ -813,16 +813,26 @@ func init() {
 				f := st.Field(i).Name()
 				key := "parseFooter/sets-" + f
 				found := false
+				notDecoded := ""
 				for _, b := range parse.Blocks {
 					for _, ins := range b.Instrs {
 						if s, ok := ins.(*ssa.Store); ok {
 							if fa, ok := s.Addr.(*ssa.FieldAddr); ok {
-								if _, fv := fieldAddrInfo(fa); fv != nil && fv.Name() == f {
+								if owner, fv := fieldAddrInfo(fa); fv != nil && fv.Name() == f && owner != nil && owner.Obj() == ft.Obj() {
 									found = true
+									// what the loader reports is what the file says: the value is a
+									// big-endian decode of file bytes (directly or through a read helper)
+									if !isFileDecode(c, s.Val, 0) {
+										notDecoded = c.pos(s.Pos()) + ": " + exprSig(s.Val, 0)
+									}
 								}
 							}
 						}
 					}
+				}
+				if found && notDecoded != "" {
+					r.bad(key, "parseFooter", c.pos(parse.Pos()), "footer field "+f+" is assigned a value that is not decoded from the file ("+notDecoded+"): the loaded segment would report and re-persist something the file does not say")
+					continue
 				}
 				if found {
 					r.ok(key, "parseFooter", c.pos(parse.Pos()), "field is read from the file")
@@ -832,6 +842,43 @@ func init() {
 			}
 		},
 	})
+}
+
+// isFileDecode: v is binary.BigEndian.UintN(…) of bytes, or the result of an
+// in-package helper all of whose non-error returns are such.
+func isFileDecode(c *Ctx, v ssa.Value, depth int) bool {
+	if depth > 3 {
+		return false
+	}
+	switch x := stripConv(v).(type) {
+	case *ssa.Call:
+		sc := x.Call.StaticCallee()
+		if sc == nil {
+			return false
+		}
+		if strings.Contains(funcFullName(sc), "encoding/binary") && strings.HasPrefix(sc.Name(), "Uint") {
+			return true
+		}
+		if c.inRoot(sc) && sc.Blocks != nil {
+			n := 0
+			for _, b := range sc.Blocks {
+				if ret, ok := b.Instrs[len(b.Instrs)-1].(*ssa.Return); ok && len(ret.Results) > 0 {
+					rv := resolveLoad(ret.Results[0])
+					if _, isConst := rv.(*ssa.Const); isConst && len(ret.Results) > 1 {
+						continue // the error return hands back a zero value
+					}
+					if !isFileDecode(c, rv, depth+1) {
+						return false
+					}
+					n++
+				}
+			}
+			return n > 0
+		}
+	case *ssa.Extract:
+		return isFileDecode(c, x.Tuple, depth+1)
+	}
+	return false
 }
 
 func isWriterLike(t types.Type) bool {
